@@ -24,7 +24,7 @@ import z3
 from vf.core import Task, R
 from vf.helpers import prove, prove_eq, discharge, cover, struct, guarded, reals
 from vf.pyvc import (Executor, Tm, VList, VDict, PyFn, PyRaise, FuncRef, Closure, vrepr, term_eq, Unsupported,
-                     to_real, Fraction)
+                     to_real, Fraction, exact)
 
 FILE = 'dadi/Godambe.py'
 
@@ -62,6 +62,7 @@ def tasks(tier):
     for fn in ('FIM_uncert', 'GIM_uncert', 'LRT_adjust', 'Wald_stat', 'score_stat'):
         ts.append(Task('props.C19:ob_multinom_wiring', name='C19/multinom.' + fn, fname=fn, timeout=120))
     ts.append(Task('props.C19:ob_godambe_assembly', name='C19/get_godambe.assembly', timeout=120))
+    ts.append(Task('props.C19:ob_godambe_func', name='C19/get_godambe.func', timeout=120))
     ts.append(Task('props.C19:ob_statistics', name='C19/statistics.formulas', timeout=120))
     from vf.helpers import bounded_tasks
     ts += bounded_tasks('C19', tier)
@@ -540,6 +541,96 @@ def ob_godambe_assembly():
                     okk = False
                     detail = 'Hessian evaluation point %s' % vrepr(hpt)[:100]
             out.append(struct(tag + '.scores', bool(okk), detail or 'get_grad(%s, %s, eps, args=[Spectrum(boot_i), adjust_i]) per bootstrap; Hessian at the same point' % ('log_func' if log_ else 'func', 'log(p0)' if log_ else 'p0'), fn))
+        return out
+    return go()
+
+
+def ob_godambe_func():
+    """The likelihood closure get_godambe differentiates (func, and log_func in log mode), reached through the function object handed to get_hess:
+         func(params, data, adjust) = Inference.ll(adjust * func_ex(params, data.sample_sizes, grid_pts), data)   entry by entry,
+       the model is evaluated once per parameter point (memo hit afterwards: key = (func_ex, params, ns, grid_pts)), and -- frame -- the cached
+       spectrum is left exactly as func_ex returned it, so a later call with another adjust (another bootstrap) is not affected by earlier ones.
+       Scenario: three consecutive calls at the same point with adjust = a1, a2 and the default, model entries symbolic."""
+    oid = 'C19/Godambe.py:get_godambe.func'
+    fn = 'dadi/Godambe.py::get_godambe'
+
+    @guarded(oid, fn)
+    def go():
+        out = []
+        for log_ in (False, True):
+            tag = '%s.%s' % (oid, 'log' if log_ else 'linear')
+            n = 3
+            m = reals('m', n)
+            a1, a2 = reals('adj', 2)
+            data = Tm('data')
+            ns = VList([2], 'ndarray')
+            data.attrs['sample_sizes'] = ns
+            pts = VList([10, 20])
+            rec = {}
+            fe_calls = []
+
+            def fe_fn(p, ns_, pts_):
+                fe_calls.append((p, ns_, pts_))
+                return VList(list(m), 'ndarray')
+            fe = PyFn(fe_fn, 'func_ex')
+
+            def hook(ex_, fref, a, kw, ctx):
+                if isinstance(fref, FuncRef) and fref.qualname == 'get_hess':
+                    f_, x0 = a[0], a[1]
+                    dat = kw.get('args', a[3] if len(a) > 3 else None)
+                    d0 = ex_.iterate(dat)[0]
+                    rec['r'] = [ex_.call(f_, [x0, d0, a1], {}), ex_.call(f_, [x0, d0, a2], {}), ex_.call(f_, [x0, d0], {})]
+                    rec['cache'] = ex_.module_global(fref.mod, 'cache', None)
+                    rec['data'] = d0
+                    return Tm('hess')
+                return NotImplemented
+            ex = Executor()
+            ex.abstract_hook = hook
+            f = ex.func(FILE, 'get_godambe')
+            p0 = VList(reals('p', 2))
+            hy = [x > 0 for x in p0.items]
+
+            def thunk(e):
+                del fe_calls[:]
+                rec.clear()
+                e.module_overrides[('dadi.Godambe', 'cache')] = VDict()
+                return e.apply(f.node, None, f.mod, [fe, pts, VList([]), p0, data, z3.Real('eps')], dict(log=log_, just_hess=True), 'get_godambe')
+            paths = ex.explore(thunk, base_pc=hy)
+            rets = [q for q in paths if q.outcome == 'return']
+            if len(rets) != 1 or 'r' not in rec:
+                out.append(struct(tag, False, 'expected one returning path through get_hess: %r' % paths[:2], fn, undecided=True))
+                continue
+            from vf.pyvc import uf
+            pc = hy + list(rets[0].pc) + [uf('exp')(uf('log')(x)) == x for x in p0.items]        # axiom: exp(log x) = x for x > 0
+            okc = len(fe_calls) == 1
+            if okc:
+                p_, ns_, pts_ = fe_calls[0]
+                okc = (ns_ is ns or vrepr(ns_) == vrepr(ns)) and (pts_ is pts or vrepr(pts_) == vrepr(pts))
+            out.append(struct(tag + '.model-evaluated-once', okc, 'func_ex(params, data.sample_sizes, grid_pts) evaluated once for three calls at the same point (%d evaluations)' % len(fe_calls), fn,
+                              finding_key='C19/get_godambe.func'))
+            if okc:
+                goals = [(to_real(exact(x)) == y, 'model evaluated at p0') for x, y in zip(ex.iterate(fe_calls[0][0]), p0.items)]
+                mm = discharge(goals, pc)
+                out.append(struct(tag + '.model-point', mm is None, mm or 'the model is evaluated at p0 itself (exp(log p0) in log mode)', fn, finding_key='C19/get_godambe.func'))
+            for r, adj, lab in zip(rec['r'], (a1, a2, z3.RealVal(1)), ('first', 'second', 'default-adjust')):
+                o = '%s.%s-call' % (tag, lab)
+                if not (isinstance(r, Tm) and r.op.endswith('Inference.ll') and len(r.args) >= 2):
+                    out.append(struct(o, False, 'value is not Inference.ll(model, data): %s' % vrepr(r)[:100], fn, finding_key='C19/get_godambe.func'))
+                    continue
+                d = dict(zip(r.attrs.get('__argnames__', ['model', 'data']), r.args))
+                mod_, dat_ = d.get('model'), d.get('data')
+                items = ex.iterate(mod_) if isinstance(mod_, VList) else None
+                if items is None or len(items) != n or dat_ is not rec['data']:
+                    out.append(struct(o, False, 'll called with %s' % vrepr(r)[:120], fn, finding_key='C19/get_godambe.func'))
+                    continue
+                mm = discharge([(to_real(exact(x)) == adj * mi, 'entry %d == adjust * model entry' % i) for i, (x, mi) in enumerate(zip(items, m))], pc)
+                out.append(struct(o, mm is None, mm or 'Inference.ll(adjust * model, data), entry by entry', fn, finding_key='C19/get_godambe.func'))
+            cache = rec.get('cache')
+            vals = list(cache.d.values()) if isinstance(cache, VDict) else []
+            okf = len(vals) == 1 and isinstance(vals[0], VList) and len(vals[0].items) == n
+            mm = discharge([(to_real(exact(x)) == mi, 'cached entry %d unchanged' % i) for i, (x, mi) in enumerate(zip(vals[0].items, m))], pc) if okf else 'cache holds %d entries' % len(vals)
+            out.append(struct(tag + '.cache-frame', mm is None, mm or 'after the three calls the cache holds the one spectrum func_ex returned, unmodified', fn,
+                              finding_key='C19/get_godambe.func'))
         return out
     return go()
 
